@@ -741,7 +741,56 @@ func c02Check(c *rt.C, b *jBundle, id, class string) {
 	}
 }
 
+// c02Naming: names whose case conversion is not a round trip (acronyms, digits, single letters). For these
+// only what the statement fixes without reference to a snake_case convention is judged: the JSON name is the
+// declared name and the number is the position; the same for path parameters' request fields.
+func c02Naming(c *rt.C, names []string, id string) {
+	var fields []*jF
+	for i, n := range names {
+		t := []*jT{tScalar(kString), tInt("INT64"), tScalar(kBool), tArr(tScalar(kString)), tMap(tInt("INT32"))}[i%5]
+		fields = append(fields, fld(n, t))
+	}
+	b := elemsBundle(objDecl("Named", fields...), &jElem{Decl: &jDecl{Kind: kOneof, Name: "NamedChoice", Fields: []*jF{fld(names[0], &jT{Kind: kObject, Inline: &jDecl{Kind: kObject, Fields: []*jF{fld(names[len(names)-1], tScalar(kString))}}})}}})
+	src := b.sources()
+	det := srcDetail(src)
+	det["id"] = id
+	c.Feature("c02:naming-stress")
+	cp, err := compileBundlePackage(newMemBundle(src), "iso.v1")
+	if err != nil {
+		c.Violate("rejected/"+errSig(err), fmt.Sprintf("%s: a package whose field names are legal lowerCamel identifiers yields no descriptors: %v", id, err), det)
+		return
+	}
+	c.Eval(rt.Hash(id, string(bundleBytes(src))), true)
+	for _, fd := range typedProtos(cp.Protos) {
+		for _, m := range fd.MessageType {
+			if m.GetName() != "Named" {
+				continue
+			}
+			if len(m.Field) != len(names) {
+				c.Violate("naming/field-count", fmt.Sprintf("%s: Named declares %d fields, %d compiled", id, len(names), len(m.Field)), det)
+				return
+			}
+			for i, f := range m.Field {
+				c.Event("stress_names_checked")
+				if f.GetJsonName() != names[i] {
+					c.Violate("naming/json-name", fmt.Sprintf("%s: field declared as %q has JSON name %q (proto name %q)", id, names[i], f.GetJsonName(), f.GetName()), det)
+				}
+				if int(f.GetNumber()) != i+1 {
+					c.Violate("naming/number", fmt.Sprintf("%s: field %q at position %d has number %d", id, names[i], i+1, f.GetNumber()), det)
+				}
+			}
+		}
+	}
+}
+
+var c02StressNames = []string{"userID", "apiURLPrefix", "line2items", "vendorSKU", "x", "aB", "fooBAR", "v2Id", "isOK", "htmlBody2x", "a1b2", "iPhone", "eTag", "oAuth2Token", "utf8Text", "ipV4", "x509Cert", "sha256sum"}
+
 func runC02(r *rt.Runner) {
+	for i := 0; i < len(c02StressNames); i += 3 {
+		i := i
+		r.Do(fmt.Sprintf("naming/%d", i), func(c *rt.C) { c02Naming(c, c02StressNames[i:i+3], fmt.Sprintf("naming:%d", i)) })
+	}
+	r.Do("naming/all", func(c *rt.C) { c02Naming(c, c02StressNames, "naming:all") })
 	for _, cell := range isolationMatrix() {
 		cell := cell
 		if cell.TotalityOnly {
